@@ -27,7 +27,7 @@ ODD = [0.1, 0.3, 0.7, 1.1, 1.7, 2.2, 3.3]
 
 def gen_cases(tier, seed):
     cases = []
-    reps = 1 if tier == "quick" else 20
+    reps = 1 if tier == "quick" else 60
     for rep in range(reps):
         for world in ("f64", "f32"):
             for t in ("exp", "tanh", "sigmoid", "logit", "cauchycdf", "cauchycdfinv"):
